@@ -40,6 +40,9 @@ CLAIMED = {
  "C11": ("exploration", "deterministic simulation of the stream framer (sender and receiver tasks over a chunking simulated connection, cuts at byte offsets, silence after a header); plus labelled input enumeration of the pure codecs against a v4 reference encoder",
          "The WebTransport length-prefix framer (send / nextPacket / limitedReader through verif exports) over a simulated connection with 1-byte..whole-frame chunking, latency and sender pauses: frames of the boundary lengths of all three prefix forms (0,1,124..128,65534..65537,70000) and random ones round-trip in order; a stream cut at a byte offset yields the intact prefix of frames and then an error, never a wrong packet; a header announcing L bytes followed by silence yields an error and no allocation beyond the limit. Side runs (input enumeration, kept apart): Packet.Encode/Decode/EncodedLen for every type x lengths 0..40,1000 x {raw, base64} and EncodePayloads/DecodePayloads/EncodedPayloadsLen for every sequence of 1..4 packets from a pool of 7, both against a reference v4 encoder; every byte string <= 3 (thorough 4) over 12 significant bytes into Decode/DecodePayloads/nextPacket without panic.",
          "§7 C11", TB),
+ "C12": ("exploration", "deterministic simulation: seeded middleware chains with delays, clients connecting concurrently, broadcasts issued while chains run, event middlewares; ordering / admission / residue oracle",
+         "Real sio server (default or custom namespace) with a chain of 0-5 namespace middlewares, each with a delay, a set of clients it rejects (by error, string or struct) and optionally a room it joins first; 1-4 real clients connect at drawn instants on every transport; namespace broadcasts at drawn instants; admitted sockets carry an event middleware. Per client: middlewares run in registration order and stop at the first rejection; connect iff all accepted, else exactly one connect_error whose payload equals the rejection; while a chain runs and after a rejection the socket is in no Sockets() list and no room, its connection handlers never ran, no broadcast whose Emit returned before the chain finished reaches it. Events: the event middleware sees the event's name and arguments before the handler; a rejected event never enters the handler; accepted ones do.",
+         "§7 C12", TB),
  "C13": ("exploration", "deterministic simulation: raw peer with exact framing (Content-Length / chunked / WebSocket / fragmented) at the limit boundaries, body-byte accounting; real-client bursts against small maxPayload; plus labelled exhaustive enumeration of the batcher",
          "Inbound: one message of exact wire size limit-1/limit/limit+1/10x limit by four framings against tiny/default/disabled limits - over-limit never reaches OnPacket, session closed, sender told, the library pulls <= limit+4 KiB out of the body; in-limit delivered and the session keeps working. Outbound: both directions around 32 KiB/64 KiB on every transport. Batch: concurrent bursts from the real polling client, every POST the server sees fits maxPayload, nothing dropped/duplicated/reordered. Side run (input enumeration): VerifClientBatches for every vector of <= 6 packet sizes x every maxPayload.",
          "§7 C13", TB),
